@@ -1020,11 +1020,12 @@ _CRASH = ("MC_Conserve.tla", "MC_Conserve_crash.cfg", 900)
 _FAULT = ("MC_Conserve.tla", "MC_Conserve_fault.cfg", 900)
 _C01 = ("MC_Conserve.tla", "MC_Conserve_c01.cfg", 600)
 _CRASH_T = ("MC_Conserve.tla", "MC_Conserve_thorough.cfg", 3000)
+_DEEP = ("MC_Conserve.tla", "MC_Conserve_deep.cfg", 3000)
 _FAULT_T = ("MC_Conserve.tla", "MC_Conserve_fault_thorough.cfg", 3000)
 MODELS = {
     "C01": {"quick": [_C01, ("Restore.tla", "Restore_repo.cfg", 300)], "thorough": [_C01, _CRASH_T, ("Restore.tla", "Restore_repo.cfg", 300)]},
-    "C02": {"quick": [_CRASH], "thorough": [_CRASH_T]},
-    "C03": {"quick": [_CRASH], "thorough": [_CRASH_T]},
+    "C02": {"quick": [_CRASH], "thorough": [_CRASH_T, _DEEP]},
+    "C03": {"quick": [_CRASH], "thorough": [_CRASH_T, _DEEP]},
     "C04": {"quick": [_FAULT], "thorough": [_FAULT_T]},
     "C05": {"quick": [_CRASH, _FAULT], "thorough": [_CRASH_T, _FAULT_T]},
     "C13": {"quick": [_CRASH], "thorough": [_CRASH_T, _FAULT_T]},
@@ -1111,3 +1112,39 @@ def replay(prop, path, tier, seed):
         print(ln)
     print(f"[replay {prop}] {res['events']} events; violations={nviol}; raw={res['viol'][:10]}")
     return 1 if nviol else 0
+
+
+# ------------------------------------------------------------------------------------------
+# ./check selftest : the specification is not vacuous -- every protocol mutant must be refuted by
+# TLC, every repository-protocol config must pass
+
+SPEC_MUTANTS = [
+    ("MC_Interlock.tla", "Interlock_mutant_norecheck.cfg", "NoLoss"),
+    ("MC_Interlock.tla", "Interlock_mutant_nocreatenew.cfg", "NoMixing"),
+    ("MC_Conserve.tla", "MC_Conserve_mutant_combiner.cfg", "Inv_"),
+    ("MC_Conserve.tla", "MC_Conserve_mutant_gcskip.cfg", "Inv_"),
+    ("MC_Conserve.tla", "MC_Conserve_mutant_silenthunks.cfg", "Inv_ValidateAdequate"),
+    ("Restore.tla", "Restore_mutant_modefirst.cfg", "Inv_MetadataExact"),
+    ("Restore.tla", "Restore_mutant_chownfollows.cfg", "Inv_OutsideUntouched"),
+    ("Restore.tla", "Restore_mutant_timesfollow.cfg", "Inv_OutsideUntouched"),
+]
+SPEC_GOOD = [
+    ("MC_Interlock.tla", "Interlock_repo.cfg"), ("MC_Interlock.tla", "Interlock_race_repo.cfg"),
+    ("MC_Conserve.tla", "MC_Conserve_c01.cfg"), ("MC_Conserve.tla", "MC_Conserve_fault.cfg"),
+    ("Restore.tla", "Restore_repo.cfg"), ("MC_Exclude.tla", "MC_Exclude.cfg"), ("MC_Diff.tla", "MC_Diff.cfg"),
+]
+
+
+def selftest():
+    bad = 0
+    for module, cfg, inv in SPEC_MUTANTS:
+        r = cvlib.run_tlc_model(module, cfg, timeout=900)
+        refuted = (not r["ok"]) and ("is violated" in r["out"]) and (inv in r["out"])
+        print(f"[selftest] mutant {cfg}: {'refuted (' + inv + ')' if refuted else 'NOT REFUTED'}")
+        bad += 0 if refuted else 1
+    for module, cfg in SPEC_GOOD:
+        r = cvlib.run_tlc_model(module, cfg, timeout=900)
+        print(f"[selftest] {cfg}: {'passes, ' + str(r['states']) + ' distinct states' if r['ok'] else 'FAILS'}")
+        bad += 0 if r["ok"] else 1
+    print("[selftest] " + ("ok" if bad == 0 else f"{bad} problems"))
+    return 0 if bad == 0 else 2
